@@ -57,7 +57,8 @@ CONSTANTS LabOrder,  \* label sets in the order a scrape appends them, e.g. <<"a
           FastOpts,  \* values of EnableFastStartup a (re)start may choose
           Fast0,     \* EnableFastStartup of the first process
           AllowKF,   \* known findings whose trigger may be generated:
-                     \*  "KF-C22-1" a restart re-issues a retired ref that WAL records / head-chunk files still carry
+                     \*  "KF-C22-1" a restart re-issues a retired ref that head-chunk files or WAL records in front of the
+                     \*             snapshot position still carry
                      \*  "KF-C22-2" a fast-startup restart lowers lastSeriesID below live refs (stale series_state.json
                      \*             trusted after the chunk snapshot was loaded)
           Acts, Script, MaxOps, EmitMode
@@ -560,11 +561,14 @@ RStepD2(st1, e, l, o) ==
   ELSE RStepD3(st1, e, l, MmapObj(AppendIno(o, e.x), st1.D))
 RStepD1(st1, e, r) ==
   IF r \notin DOMAIN st1.byRef THEN st1 ELSE RStepD2(st1, e, st1.byRef[r], st1.ser[st1.byRef[r]])
-RStepD(st, e) ==
+RStepD0(st, e) ==
   IF e.x.t < st.mv THEN st
   ELSE IF e.r \in DOMAIN st.multi
          THEN RStepD1([st EXCEPT !.exp = SetF(@, e.r, Max2(e.x.t, Get(@, e.r, 0)))], e, st.multi[e.r])   \* updateWALExpiry of the duplicate ref
          ELSE RStepD1(st, e, e.r)
+\* every ref met in a sample record advances lastSeriesID, whether or not its series record is still there
+\* (Head.advanceLastSeriesID), before the minValidTime filter
+RStepD(st, e) == RStepD0([st EXCEPT !.lastID = Max2(@, e.r)], e)
 \* full-range tombstone: unlinkHash + deleteSeriesByID
 RStepT2(st0, r, l, o, mx) ==
   [st0 EXCEPT !.ser = [@ EXCEPT ![l] = NoObj], !.byRef = DelF(@, {r}),
